@@ -182,10 +182,10 @@ PROPS = {
         partial=["family clauses (Props/C04b: rotation leaves only the new pair, reuse kills the grant and only that grant, for good) are over fault-free histories; a storage fault inside handleRefreshTokenReuse answers a storage error instead (C18)"],
     ),
     "C05": dict(
-        modules=["Fosite.Props.C05"],
+        modules=["Fosite.Props.C05", "Fosite.Props.C05b"],
         drivers=[dict(name="hist", kind="hist")],
         rule=HIST_RULE,
-        partial=["issuance rule is proved for the code flow; password and device flows are not yet in the model"],
+        partial=["issuance rule: code flow (C05), device / password / refresh / client_credentials flows and the history-level theorem every_refresh_token_in_a_history_obeys_the_rule (C05b) speak of refresh tokens RETURNED in responses; a record-level statement (no createRefresh outside the rule on error paths) is not stated", "observation (not demanded by the statement): the password flow issues a refresh token to a client without the refresh_token grant type, which the refresh flow then refuses (C05b.password_flow_ignores_refresh_grant_type)"],
     ),
     "C06": dict(
         modules=["Fosite.Props.C06", "Fosite.Props.C06b"],
@@ -221,19 +221,19 @@ PROPS = {
                  "form_post with a custom-scheme redirect URI: html/template rewrites the form action (recorded known finding authz:formpost-custom-scheme)"],
     ),
     "C12": dict(
-        modules=["Fosite.Props.C12", "Fosite.Props.C12b"],
+        modules=["Fosite.Props.C12", "Fosite.Props.C12b", "Fosite.Props.C12c"],
         drivers=[dict(name="scope", kind="pure"), dict(name="audience", kind="pure"), dict(name="hist", kind="hist")],
         rule="D4 pure drivers. scope: every (strategy, matcher list, needle) over the segment alphabet {a,b,*,''} up to 3 (quick) / 4 (thorough) segments with one matcher, sampled/exhaustive pairs of matchers, plus seeded random long dotted names biased to near-matches; non-trivial = accepted, or some matcher agrees with the needle on its first segment. audience: every entry carries the components the real net/url.Parse produced; bounded-exhaustive single whitelisted x single requested URL over schemes x hosts x path shapes ('', '/', '/a', '/a/', '/a/b', '/ab', '/a//', '//a', ...), same-origin path pairs with query/fragment/userinfo decorations, unparsable strings and non-URL audiences in every list position, pairs of lists, seeded random lists with 75% near-match mutations; non-trivial = accepted, or a parse error is involved, or some pair agrees on scheme and host so the path rule decides (default) / is equal up to trailing slashes and case (exact). distinct = distinct op lines",
         assumptions=["scope strings are compared as sequences of Unicode code points in the model and bytes in Go; the scope generators use ASCII only",
                      "audience strings are transported hex-encoded byte by byte, so byte semantics are exact; net/url.Parse is trusted: the model takes its output (ok/scheme/host/path) as input and the harness re-derives it from the raw string on every execution, including replay"],
-        partial=["flow confinement (no flow accepts an uncovered scope/audience; tokens never carry an ungranted one) is checked by the history correspondence and the C12 monitor clauses; Lean theorems for it exist per flow only for refresh (C05) and redeem (C02)"],
+        partial=["flow confinement (Props/C12c): acceptance => coverage for authorize (code / implicit / hybrid), PAR push, client_credentials, password, device authorization; every Req handed to createCode / createAccess / createRefresh on every path carries exactly the de-duplicated grant (minted_requests_carry_exactly_the_grant); JWT-bearer grants are not in the history model (pure assertion driver, C15); the invariant tying a stored PAR record to its push-time check across a history is not proved (the two one-step halves are)", "observations under the readings chosen: a pushed request is checked against the registration at push time and not again at the authorization endpoint (C12c.pushed_request_outlives_registration_narrowing, replayed on the Go code: accepted, while the same request sent directly is refused invalid_scope; the window is the request_uri lifetime); what the application grants is not compared with what was requested (C12c.consent_may_grant_beyond_the_request)"],
     ),
     "C16": dict(
-        modules=["Fosite.Props.C16"],
+        modules=["Fosite.Props.C16", "Fosite.Props.C16b"],
         drivers=[dict(name="hist", kind="hist")],
         rule=HIST_RULE + "; device flows: device-authorize, user decision (none/accept/reject) applied by the consent application to the stored request, polling by the right / a wrong / an unauthenticated client, tampered codes, replay after success, time advance across the code lifetime; both store variants (the reference store deletes a used device code; the wrapper variant marks it and answers ErrInvalidatedDeviceCode, chosen per history)",
         partial=["'device and user codes are unguessable and distinct' rests on rand_fresh (C06 mint theorems cover layout/entropy); 'stored only as signatures' is checked by the C20 taint scan",
-                 "the prescribed answers (authorization_pending / access_denied / expired_token / invalid_grant) are checked by the monitor and the correspondence; Lean theorems cover the safety core and at-most-once"],
+                 "prescribed answers (Props/C16b): authorization_pending / access_denied / expired_token / invalid_grant with the exact precedence the handler implements (state 0, state 2, expiry, MAC, client), refusals change nothing, replay against a marking store revokes by the device request's id; precedence where several conditions hold is the code's (an undecided expired code answers authorization_pending)"],
     ),
     "C17": dict(
         modules=["Fosite.Props.C17"],
@@ -268,16 +268,16 @@ PROPS = {
                  "RemoveEmpty's trimming of non-space whitespace is not modelled"],
     ),
     "C13": dict(
-        modules=["Fosite.Props.C13"],
+        modules=["Fosite.Props.C13", "Fosite.Props.C13b"],
         drivers=[dict(name="authz", kind="pure", spec_sees_obs=True)],
         rule="D6 pure driver 'authz': the real NewAuthorizeRequest -> grant scopes and openid.DefaultSession -> NewAuthorizeResponse -> WriteAuthorizeResponse / WriteAuthorizeError into httptest.ResponseRecorder, against ComposeAllEnabled over storage.NewMemoryStore. Streams: core (registration: response types x grant types x response modes; 22 response_type strings incl. orderings, duplicates, unknown, case variants, empty; response_mode in {'', query, fragment, form_post, bogus}; scope +- openid; nonce length), state (lengths around the threshold in bytes vs characters, hostile characters, x mode x MinParameterEntropy), redirect (12 registrations x 25 requested redirect_uri values x flow x mode x a later failure), ro (22 request-object variants x 14 registrations x 7 transports x 14 claim sets), prompt (prompt x max_age x session times x public x redirect security x id_token_hint), pkce, misc, rand. Compared per case: verdict plus RFC name/status, HTTP status, placement, target scheme://host/path, sorted parameter names at the placement and in the URL query, echoed state, tokens_in_query. Non-trivial = accepted, or error redirected, or request-object path reached; distinct = distinct op lines",
         assumptions=['net/url, ParseIP, govalidator facts per URI (as in C11), strings.ToLower, strconv.ParseInt are parameters recomputed by the executor (bad-facts otherwise)', 'JWS facts {malformed | alg, kid, signer, claimsValid, claims} under jws_verify_sound; HTTP fetch of request_uri served from one httptest.Server through a rewriting transport', 'audience-strategy verdict (C12), id_token_hint decode, url.ParseQuery keys of the redirect URI, html/template URL filter on the form action are parameters', 'storage and minting always succeed (C18); request_uri never carries the PAR prefix (C17); max_age is small (time.Second*maxAge overflow not modelled)'],
         partial=["the jwks_uri (remote JWKS) branch is modelled but never executed by the harness",
                  "'can never turn a code into tokens' for the plain code flow is the token endpoint's check (C02); C13 proves the hybrid gate at the authorize endpoint",
-                 "no capstone theorem 'the monitor never fires on model output' (holds empirically: impl = model on all cases)"],
+                 "capstone C13b.monitor_silent_on_model: the spec monitor evaluated on the model's own structured observation reports nothing, for all inputs, under CapHyp (own query keys of the target are not token parameter names; form action kept) — each hypothesis shown necessary by a witness; the text round trip of the driver line (render / re-parse) is covered by build-time #guard checks, not by a kernel theorem"],
     ),
     "C14": dict(
-        modules=["Fosite.Props.C14"],
+        modules=["Fosite.Props.C14", "Fosite.Props.C14b"],
         drivers=[dict(name="idtoken", kind="pure", spec_sees_obs=True)],
         rule="D6-style stateless driver 'idtoken': one op = one complete OIDC exchange against compose.ComposeAllEnabled over a fresh MemoryStore inside its own synctest bubble (exact virtual clock). First step in {code, id_token, id_token token, code id_token, code id_token token, code token, device authorization + application accept}; reported step in {authorize, token endpoint, refresh}. Key in {RSA-2048 RS256, P-256 ES256, JWK ES384/ES512/RS384/PS512}. Varied: session alg header, subject, session issuer/aud/jti/acr/amr, auth_time vs requested_at, preset exp, Extra claims overriding all 13 reserved names, granted scopes, nonce length around the minimum, MinParameterEntropy, max_age incl. int64 overflow, prompt lists, id_token_hint in {same, other, expired, expired_other, garbage, wrongkey, nosub}, public/confidential, secure/insecure redirect, per-client and config lifespans incl. 0 and negative, pauses between steps up to 2 h, grant_type injection, refresh nonce. Every id_token is verified with go-jose and the public key, decoded, and at_hash/c_hash recomputed with crypto/sha256/sha512 by the JWS alg from the access token/code of the same exchange. Compared: the full canonical line. Non-trivial = an ID token was issued, or an error with openid granted",
         assumptions=["the OAuth2 core around the openid handlers succeeds; the generator keeps client, redirect, state, scopes, client authentication and code validity in order",
@@ -285,7 +285,7 @@ PROPS = {
                      "in the device flow the OIDC form is application-supplied, with single-valued prompt and no grant_type (FZ_IDT_DEVICE_FORM=1 lifts this)",
                      "library parameters taken from the op line: sigalg, ParseInt(max_age), Signer.Decode(hint), IsRedirectURISecure; the executor re-checks each and answers bad-fact if the line lies",
                      "times are on the Unix-ns Int line; jws_verify_sound is trusted (the harness verifies with go-jose)"],
-        partial=["the monitor Spec.IDToken.check is not yet proved silent on all model exchanges as one theorem; the per-clause theorems cover it",
+        partial=["capstone C14b.monitor_silent_on_model: Spec.IDToken.check is silent on every model exchange under CapHyp (the assumptions below made explicit; each shown necessary by a witness); the text round trip of the driver line is covered by build-time #guard checks, not by a kernel theorem",
                  "at_hash/c_hash follow the session header alg, not the JWS alg; GenerateIDToken compares prompt verbatim; a form grant_type=refresh_token switches off the max_age/prompt/hint block (only reachable in the device flow with an application-supplied form): limit theorems hash_follows_session_header_not_jws_alg, generate_compares_prompt_verbatim, generate_skips_request_checks_on_refresh_grant"],
     ),
     "C15": dict(
@@ -322,12 +322,12 @@ PROPS = {
                  "token generation never repeating rests on rand_fresh (C06 mint theorems)"],
     ),
     "C20": dict(
-        modules=["Fosite.Props.C20"],
+        modules=["Fosite.Props.C20", "Fosite.Props.C20b"],
         drivers=[dict(name="render", kind="pure"), dict(name="hist", kind="hist")],
         rule=HIST_RULE + " — storage half: every key and every stored form value the library hands to the storage layer during an operation is compared with every secret the harness used in that history (client secrets, code verifiers, complete codes and tokens). D4 pure driver 'render': every sentinel of errors.go x {WriteAccessError, WritePushedAuthorizeError, WriteIntrospectionError, WriteRevocationResponse, WriteAuthorizeError in 6 placements (invalid redirect->JSON, query, fragment, form_post, default, unknown mode), MarshalJSON, ToValues, GetDescription} x legacy/new format x debug exposure on/off x hint/debug texts with quotes, control characters, <script>, &, %, NUL, invalid UTF-8, U+2028; hint x debug cross product; custom errors, plain Go errors, WithStack / %w / WithWrap chains, by-value errors, nil; errors.Is routing of introspection/revocation for every sentinel pair; success writers (access, authorize in all modes with hostile parameter names/values and responder headers colliding with Cache-Control/Pragma/Content-Type, introspection, PAR, device). Executed against compose.ComposeAllEnabled with the two Config switches into httptest.ResponseRecorder; the response is read back with encoding/json, a hand splitter + url.QueryUnescape, and golang.org/x/net/html (any injected element or attribute makes the body 'raw'); compared: status, all headers, body kind, redirect target, every decoded field; LEAK flag if a debug text occurs raw or decoded while exposure is off. Non-trivial = error op whose chain carries non-empty internal text, or success op that wrote a body/redirect; distinct = distinct op lines",
         assumptions=["JSON, URL-query and html/template escaping are library parameters: the model yields the data handed to them and the harness recovers it with independent parsers",
                      "default nil MessageCatalog (i18n not modelled); default empty ResponseModeHandler; IsRedirectURIValid is an input bit (C11's model), cross-checked in the observation"],
-        partial=["storage half of C20 (nothing handed to storage is a usable secret) is checked by the taint scan of the history driver's storage-call log (not yet a Lean theorem)",
+        partial=["storage half of C20: Props/C20b proves for every endpoint program, every path, every fault plan that no record handed to storage has a form entry under a secret-bearing parameter name (createCode may keep a user-agent supplied `code` entry: Go whitelist {code, redirect_uri}; createPAR keeps everything but the three client-authentication parameters) and that the OIDC-session key is the one recorded exception; the theorems read parameter NAMES, the harness taint scan reads VALUES (a secret sent under a whitelisted name such as scope is seen by the scan only)",
                  "device response: the spec prescribes nothing (implementation emits an extra \"Header\":null member); compared through the model only"],
     ),
 }
